@@ -2,120 +2,25 @@
 
 package ed25519
 
-// C12 for the Ed25519 scalar field: reduceModOrder / red512 / calculateS
-// (sign/ed25519/modular.go) against math/big mod
-// l = 2^252 + 27742317777372353535851937790883648493.
+// C12: reduceModOrder (sign/ed25519/modular.go; red512 underneath) against math/big mod l.
+// The only unexported identifier named here is reduceModOrder.
 
 import (
-	"math/big"
 	"testing"
 
-	"github.com/cloudflare/circl/internal/verifmc"
 	bf "github.com/cloudflare/circl/internal/verifref/bigfield"
 )
 
-type c12Buf struct{ b []byte }
-
-func c12ScalarField(name string, size int) *bf.Field {
-	return &bf.Field{
-		Prop: "C12", Name: name, P: bf.L25519, Hex: 2 * size,
-		New: func() bf.Elem { return &c12Buf{make([]byte, size)} },
-		Load: func(z bf.Elem, v *big.Int) bool {
-			if v.Sign() < 0 || v.BitLen() > 8*size {
-				return false
-			}
-			copy(z.(*c12Buf).b, bf.LE(v, size))
-			return true
-		},
-		Copy: func(d, s bf.Elem) { copy(d.(*c12Buf).b, s.(*c12Buf).b) },
-		Raw:  func(x bf.Elem) *big.Int { return bf.FromLE(x.(*c12Buf).b) },
-		Same: func(a, b bf.Elem) bool { return string(a.(*c12Buf).b) == string(b.(*c12Buf).b) },
-		Par:  verifmc.ParallelFor,
-	}
-}
-
-// c12ScalarAlphabet: integers below 2^bits built around multiples of l, of
-// 2^252 (the split point of the final reduction step), limb boundaries and limb products.
-func c12ScalarAlphabet(bits uint, thorough bool) []bf.Operand {
-	l := bf.L25519
-	lim := bf.Pow2(bits)
-	c := new(big.Int).Sub(l, bf.Pow2(252)) // l = 2^252 + c
-	var ops []bf.Operand
-	add := func(v *big.Int, name string) {
-		ops = append(ops, bf.Around(v, -2, 2, name)...)
-	}
-	// multiples of l
-	qmax := new(big.Int).Div(lim, l)
-	for _, k := range []int64{0, 1, 2, 3, 7, 8, 14, 15, 16, 17, 31, 32} {
-		add(new(big.Int).Mul(l, big.NewInt(k)), "k*l")
-	}
-	for _, d := range []int64{0, 1, 2, 15, 16, 17} {
-		k := new(big.Int).Sub(qmax, big.NewInt(d))
-		if k.Sign() >= 0 {
-			add(new(big.Int).Mul(l, k), "(qmax-d)*l")
-		}
-	}
-	// j*2^252 + e*c: the last step subtracts q0*l with q0 = x>>252; the remainder r' - q0*c goes negative when r' < q0*c
-	for j := int64(0); j <= 17; j++ {
-		b := new(big.Int).Mul(bf.Pow2(252), big.NewInt(j))
-		for _, e := range []int64{0, 1, j - 1, j, j + 1, 16} {
-			if e < 0 {
-				continue
-			}
-			add(new(big.Int).Add(b, new(big.Int).Mul(c, big.NewInt(e))), "j*2^252+e*c")
-		}
-	}
-	for j := uint(1); 64*j <= bits; j++ {
-		add(bf.Pow2(64*j), "2^64j")
-		add(new(big.Int).Mul(bf.Pow2(64*j), c), "c*2^64j")
-		add(new(big.Int).Mul(bf.Pow2(64*j), l), "l*2^64j")
-		// multiples of l just above a limb boundary
-		k := new(big.Int).Div(bf.Pow2(64*j), l)
-		add(new(big.Int).Mul(k, l), "floor(2^64j/l)*l")
-		add(new(big.Int).Mul(k.Add(k, big.NewInt(1)), l), "ceil(2^64j/l)*l")
-	}
-	for j := uint(250); j <= bits && j <= 262; j++ {
-		add(bf.Pow2(j), "2^j")
-	}
-	n := int(bits / 64)
-	wide := []uint64{0, 1, 2, 1<<32 - 1, 1 << 32, 1<<60 - 1, 1 << 60, 1<<63 - 1, 1 << 63, ^uint64(0) - 1, ^uint64(0)}
-	core := []uint64{0, ^uint64(0)}
-	if thorough || n <= 4 {
-		core = []uint64{0, 1, ^uint64(0)}
-	}
-	if thorough && n <= 4 {
-		core = []uint64{0, 1, 1 << 60, 1 << 63, ^uint64(0)}
-	}
-	lp := bf.LimbProduct(n, bf.Rep(n, core), bf.Rep(n, wide), 2)
-	var ps []bf.Operand
-	for k := 0; k < 32; k++ {
-		ps = append(ps, bf.Operand{V: bf.Pseudo("ed25519-scalar", k, lim), Name: "pseudo"})
-	}
-	return bf.Append(lim, ops, lp, ps)
-}
-
 func TestVerifC12_ed25519scalar(t *testing.T) {
-	if verifmcConfig() != "default" {
-		t.Skip("pure Go code: identical in every configuration; run under default only")
-	}
-	r := verifmc.Start(t, "C12", "ed25519scalar")
+	r := c12Start(t, "ed25519scalar")
 	defer r.Finish()
-	if bad := bf.SelfCheck(); len(bad) != 0 {
-		t.Fatalf("reference constants not bound: %v", bad)
-	}
-	if bf.FromLE(order[:]).Cmp(bf.L25519) != 0 {
-		t.Fatalf("package order differs from RFC 8032 l")
-	}
-	r.Rule("operands: 256- and 512-bit little-endian strings built around multiples of l, around j*2^252+e*c (c=l-2^252, the split of the last reduction step), limb boundaries, limb products (<=2 limbs away from 00../FF.. over 11 limb values, full product of a small core) and 32 pseudo-random values; reduceModOrder on every element in both modes; calculateS on all ordered (k,a) pairs of a 256-bit key list for 6 values of r; pair sweeps above 1.5e6 cases are counted by the ordered_pairs counters instead of being hashed into distinct_nontrivial; a distinct case is one (operation, operand tuple)")
-	r.NotExhaustive("operands are the declared alphabet, not all 2^512 strings")
-
+	r.Rule(c12AlphabetRule + "reduceModOrder on every element in both modes and on the clamped scalars the signing code feeds to the 256-bit mode; a distinct case is one (operation, operand)")
 	f64 := c12ScalarField("ed25519.scalar512", 64)
 	f32 := c12ScalarField("ed25519.scalar256", 32)
 	a64 := f64.Prepare("w", c12ScalarAlphabet(512, r.Thorough()))
 	a32 := f32.Prepare("n", c12ScalarAlphabet(256, r.Thorough()))
 	r.Set("elements_512", a64.Len())
 	r.Set("elements_256", a32.Len())
-
 	red := func(full bool) func(z, x bf.Elem) {
 		return func(z, x bf.Elem) {
 			copy(z.(*c12Buf).b, x.(*c12Buf).b)
@@ -125,7 +30,6 @@ func TestVerifC12_ed25519scalar(t *testing.T) {
 	f64.CheckUn(r, bf.UnOp{Name: "reduceModOrder(full)", Do: red(true), Ref: bf.RefId, Canon: true, NoAlias: true}, a64, true)
 	f32.CheckUn(r, bf.UnOp{Name: "reduceModOrder(full)", Do: red(true), Ref: bf.RefId, Canon: true, NoAlias: true}, a32, true)
 	f32.CheckUn(r, bf.UnOp{Name: "reduceModOrder(256)", Do: red(false), Ref: bf.RefId, Canon: true, NoAlias: true}, a32, true)
-
 	// the subset the signing code feeds to the 256-bit mode: clamped scalars (bits 0..2 and 255 clear, bit 254 set)
 	var clamped []bf.Operand
 	for _, o := range a32.Ops {
@@ -138,20 +42,7 @@ func TestVerifC12_ed25519scalar(t *testing.T) {
 	cl := f32.Prepare("c", bf.Append(bf.Pow2(256), clamped))
 	r.Set("clamped_elements", cl.Len())
 	f32.CheckUn(r, bf.UnOp{Name: "reduceModOrder(256,clamped)", Do: red(false), Ref: bf.RefId, Canon: true, NoAlias: true}, cl, true)
-
-	// calculateS: s = r + k*a mod l
-	key := f32.Prepare("k", bf.Thin(a32.Ops, r.Pick(120, 400)))
-	r.Set("calculateS_elements", key.Len())
-	for ri, rv := range []*big.Int{new(big.Int), big.NewInt(1), new(big.Int).Sub(bf.L25519, big.NewInt(1)), bf.L25519, new(big.Int).Sub(bf.Pow2(256), big.NewInt(1)), bf.Pseudo("ed25519-r", 0, bf.Pow2(256))} {
-		rb := bf.LE(rv, 32)
-		rv := rv
-		f32.CheckBin(r, bf.BinOp{Name: "calculateS", NoAlias: true,
-			Do:  func(z, x, y bf.Elem) { calculateS(z.(*c12Buf).b, rb, x.(*c12Buf).b, y.(*c12Buf).b) },
-			Ref: func(out, x, y, p *big.Int) bool { out.Mul(x, y).Add(out, rv).Mod(out, p); return true }, Canon: true}, key, key, ri == 0)
-	}
-	// isLessThan(x, order) on every 256-bit element
-	f32.CheckPred(r, bf.Pred{Name: "isLessThan(order)", Do: func(x bf.Elem) bool { return isLessThan(x.(*c12Buf).b, order[:]) },
-		Ref: func(x, p *big.Int) bool { return x.Cmp(p) < 0 }}, a32)
+	r.RequireCounter("ed25519.scalar512.reduceModOrder(full)", 1000)
 	for i := 0; i < 3; i++ {
 		k := i*a64.Len()/3 + 5
 		r.Sample(map[string]string{"element": a64.Ops[k].Name, "value": a64.Ops[k].V.Text(16)})
